@@ -332,14 +332,15 @@ theorem forall_run_ok (it : String) (b : Iter) (body : EvalM Flow) (hb : OkKeeps
       exact key a h1
 
 def AllOk (funcs : List Func) (fuel : Nat) : Prop :=
-  (∀ depth body catches, (if catches.isEmpty then flatL body else noClauseL body) = true →
-      OkKeeps (execBlock funcs depth fuel body catches)) ∧
-  (∀ depth l, flatL l = true → OkKeeps (execList funcs depth fuel l)) ∧
-  (∀ depth st, flatS st = true → OkKeeps (exec funcs depth fuel st)) ∧
-  (∀ depth rules, flatRules rules = true → OkKeeps (execIf funcs depth fuel rules))
+  (∀ depth body catches, OkKeeps (execBlock funcs depth fuel body catches)) ∧
+  (∀ depth l, OkKeeps (execList funcs depth fuel l)) ∧
+  (∀ depth st, OkKeeps (exec funcs depth fuel st)) ∧
+  (∀ depth rules, OkKeeps (execIf funcs depth fuel rules))
 
+/-- A block: the body ended without error (induction), or a clause ended without error — then the record is set back to what it was
+on ENTRY of the block (`handlerExit s.lastErr`, repo 8256736), whatever body and clause did to it in between. -/
 theorem execBlock_ok_step (funcs : List Func) (fuel : Nat) (ih : AllOk funcs fuel) (depth : Nat) (body : List Stmt)
-    (catches : List (String × List Stmt)) (hb : (if catches.isEmpty then flatL body else noClauseL body) = true) : OkKeeps (execBlock funcs depth (fuel + 1) body catches) := by
+    (catches : List (String × List Stmt)) : OkKeeps (execBlock funcs depth (fuel + 1) body catches) := by
   obtain ⟨-, ihL, -, -⟩ := ih
   constructor
   intro s a sf h
@@ -351,58 +352,44 @@ theorem execBlock_ok_step (funcs : List Func) (fuel : Nat) (ih : AllOk funcs fue
     | ok fl =>
       simp only [] at h
       cases h
-      by_cases he : catches.isEmpty = true
-      · rw [if_pos he] at hb
-        exact (ihL depth body hb).h s _ _ hbody
-      · rw [if_neg he] at hb
-        have := ((err_all funcs fuel).2.2.2.2.1 depth body hb).h s
-        rw [hbody] at this; exact this
+      exact (ihL depth body).h s _ _ hbody
     | err c x =>
       simp only [] at h
       split at h
       · cases h
       · split at h
-        · rename_i handler hfind
-          have hne : ¬ catches.isEmpty = true := by
-            intro he; rw [List.isEmpty_iff] at he; subst he; simp at hfind
-          rw [if_neg hne] at hb
-          have hkeep := ((err_all funcs fuel).2.2.2.2.1 depth body hb).h s
-          rw [hbody] at hkeep
-          unfold handlerExit at h
+        · unfold handlerExit at h
           split at h
-          · rename_i fl s2 heq
-            cases h
-            exact hkeep
+          · cases h
+            rfl
           · rename_i hno
             exact (hno a sf h).elim
         · cases h
     | haz x => simp at h
     | unmodelled => simp at h
 
-theorem execList_ok_step (funcs : List Func) (fuel : Nat) (ih : AllOk funcs fuel) (depth : Nat) (l : List Stmt)
-    (hl : flatL l = true) : OkKeeps (execList funcs depth (fuel + 1) l) := by
+theorem execList_ok_step (funcs : List Func) (fuel : Nat) (ih : AllOk funcs fuel) (depth : Nat) (l : List Stmt) :
+    OkKeeps (execList funcs depth (fuel + 1) l) := by
   obtain ⟨-, ihL, ihS, -⟩ := ih
   cases l with
   | nil => unfold execList; exact OkKeeps.pure _
   | cons a as =>
-    have h : flatS a = true ∧ flatL as = true := by simpa [flatL] using hl
     unfold execList
-    repeat (first | ok_core | exact ihL _ _ h.2 | exact ihS _ _ h.1)
+    repeat (first | ok_core | exact ihL _ _ | exact ihS _ _)
 
-theorem execIf_ok_step (funcs : List Func) (fuel : Nat) (ih : AllOk funcs fuel) (depth : Nat) (l : List (Option Expr × List Stmt))
-    (hl : flatRules l = true) : OkKeeps (execIf funcs depth (fuel + 1) l) := by
+theorem execIf_ok_step (funcs : List Func) (fuel : Nat) (ih : AllOk funcs fuel) (depth : Nat) (l : List (Option Expr × List Stmt)) :
+    OkKeeps (execIf funcs depth (fuel + 1) l) := by
   obtain ⟨-, ihL, -, ihI⟩ := ih
   have hE : ∀ d e, OkKeeps (eval funcs d fuel e) := fun d e => OkKeeps.of_pres ((err_all funcs fuel).1 d e)
   cases l with
   | nil => unfold execIf; exact OkKeeps.pure _
   | cons a as =>
     obtain ⟨c, b⟩ := a
-    have h : flatL b = true ∧ flatRules as = true := by simpa [flatRules] using hl
     unfold execIf
-    repeat (first | ok_core | exact hE _ _ | exact ihL _ _ h.1 | exact ihI _ _ h.2)
+    repeat (first | ok_core | exact hE _ _ | exact ihL _ _ | exact ihI _ _)
 
-theorem exec_ok_step (funcs : List Func) (fuel : Nat) (ih : AllOk funcs fuel) (depth : Nat) (st : Stmt)
-    (hs : flatS st = true) : OkKeeps (exec funcs depth (fuel + 1) st) := by
+theorem exec_ok_step (funcs : List Func) (fuel : Nat) (ih : AllOk funcs fuel) (depth : Nat) (st : Stmt) :
+    OkKeeps (exec funcs depth (fuel + 1) st) := by
   obtain ⟨ihB, ihL, -, ihI⟩ := ih
   have hE : ∀ d e, OkKeeps (eval funcs d fuel e) := fun d e => OkKeeps.of_pres ((err_all funcs fuel).1 d e)
   have hP : ∀ d es, OkKeeps (evalPrint funcs d fuel es) := fun d es => OkKeeps.of_pres ((err_all funcs fuel).2.2.2.2.2.2.1 d es)
@@ -420,14 +407,10 @@ theorem exec_ok_step (funcs : List Func) (fuel : Nat) (ih : AllOk funcs fuel) (d
     · repeat (first | ok_core | exact hE _ _)
     · repeat (first | ok_core | exact hE _ _)
     · repeat (first | ok_core | exact hP _ _)
-    · have h' := hs; simp only [flatS] at h'
-      exact ihI _ _ h'
-    · have h' := hs; simp only [flatS] at h'
-      exact whileLoop_ok _ _ (hE _ _) (ihL _ _ h') _
-    · have h' := hs; simp only [flatS] at h'
-      repeat (first | ok_core | exact hE _ _ | exact forLoop_ok _ _ _ _ _ (ihL _ _ h') _)
+    · exact ihI _ _
+    · exact whileLoop_ok _ _ (hE _ _) (ihL _ _) _
+    · repeat (first | ok_core | exact hE _ _ | exact forLoop_ok _ _ _ _ _ (ihL _ _) _)
     · rename_i it src dir body
-      have h' := hs; simp only [flatS] at h'
       apply OkKeeps.bind (hE _ _); intro tv
       split
       · exact OkKeeps.pure _
@@ -438,31 +421,30 @@ theorem exec_ok_step (funcs : List Func) (fuel : Nat) (ih : AllOk funcs fuel) (d
       refine OkKeeps.ite _ (OkKeeps.of_pres (Pres.failE keepErr_rel _ _)) ?_
       split
       · refine OkKeeps.ite _ (OkKeeps.of_pres (Pres.lift keepErr_rel _)) ?_
-        exact forall_run_ok _ _ _ (ihL _ _ h') _ _
+        exact forall_run_ok _ _ _ (ihL _ _) _ _
       · rename_i hx
         cases src <;> first
           | exact absurd rfl (hx _)
-          | exact forall_run_ok _ _ _ (ihL _ _ h') _ _
-    · rename_i body catches
-      have h' := hs; simp only [flatS] at h'
-      exact ihB _ _ _ h'
+          | exact forall_run_ok _ _ _ (ihL _ _) _ _
+    · exact ihB _ _ _
     · repeat (first | ok_core)
     · exact OkKeeps.pure _
     · repeat (first | ok_core | exact hE _ _)
     · exact OkKeeps.pure _
     · exact OkKeeps.pure _
 
-/-- **Ending without error ⇒ record unchanged**, for all code in which every block that has exception clauses has a clause-free body
-(fifth mutual induction, outcome-sensitive). -/
+/-- **Ending without error ⇒ record unchanged**, for ALL code (fifth mutual induction, outcome-sensitive). Before repo 8256736 this
+needed the proviso that every block with exception clauses has a clause-free body (`flatL`): a clause that failed left its record
+behind and the catching block restored THAT. -/
 theorem ok_all (funcs : List Func) : ∀ fuel, AllOk funcs fuel := by
   intro fuel
   induction fuel with
   | zero =>
     refine ⟨?_, ?_, ?_, ?_⟩
-    · intro d b c _; unfold execBlock; exact OkKeeps.of_pres (Pres.oof keepErr_rel)
-    · intro d l _; unfold execList; exact OkKeeps.of_pres (Pres.oof keepErr_rel)
-    · intro d s _; unfold exec; exact OkKeeps.of_pres (Pres.oof keepErr_rel)
-    · intro d l _; unfold execIf; exact OkKeeps.of_pres (Pres.oof keepErr_rel)
+    · intro d b c; unfold execBlock; exact OkKeeps.of_pres (Pres.oof keepErr_rel)
+    · intro d l; unfold execList; exact OkKeeps.of_pres (Pres.oof keepErr_rel)
+    · intro d s; unfold exec; exact OkKeeps.of_pres (Pres.oof keepErr_rel)
+    · intro d l; unfold execIf; exact OkKeeps.of_pres (Pres.oof keepErr_rel)
   | succ fuel ih =>
     exact ⟨execBlock_ok_step funcs fuel ih, execList_ok_step funcs fuel ih, exec_ok_step funcs fuel ih, execIf_ok_step funcs fuel ih⟩
 end BlocV.Lemmas
